@@ -60,6 +60,12 @@ func (p *Poller) Next() GenericDataType {
 		data, ok := p.Diode.TryNext()
 		if !ok {
 			if p.isDone() {
+				// A Set may have landed between the failed TryNext above and
+				// the cancellation: look once more so that nothing written
+				// before the context was cancelled is left behind.
+				if data, ok = p.Diode.TryNext(); ok {
+					return data
+				}
 				return nil
 			}
 
